@@ -411,6 +411,17 @@ func (u *udpCase) lifeScenario(clients []*net.UDPAddr, unknown []*specKey) {
 	u.flushAsync()
 	second := time.Now()
 	u.opPkt(c, unknown, pktOpts{conn: u.conn, forceValid: true, noDNS: true})
+	if p, ok := u.natPort[cs]; !ok || p != port0 {
+		// the keep-alive did not travel on the first association.  If it was handled well within the timeout of the first
+		// datagram, the association died early; if this client was scheduled late (busy machine) and the timeout had
+		// run out, the expiry was legitimate and the scenario is void — its later steps would compare against the wrong socket
+		if handledBy := time.Since(start); handledBy < T-5*time.Millisecond {
+			u.out.Oracle("C14", "association of %s did not survive %v after its first datagram (timeout %v)", cs, handledBy, T)
+		} else {
+			u.out.Stat("life.keepalive-came-late", 1)
+		}
+		return
+	}
 	sleepUntil(second.Add(T * 85 / 100))
 	u.flushAsync()
 	if p, ok := u.natPort[cs]; (!ok || p != port0) && time.Since(second) < T-3*time.Millisecond {
